@@ -648,9 +648,9 @@ theorem paddedProds_length (lv : List (Name × Nat)) (r : BRxn) :
 
 /-- `linRxnsOf` for one base reaction all of whose compounds carry labels -/
 theorem linRxnsOf_eq (lv : List (Name × Nat)) (r : BRxn) (lm : List Nat)
-    (others : List (Name × List (Name × Int)))
+    (baseRxns : List (Name × List (Name × Int))) (hlk : baseRxns.lookup r.name = some r.stoich)
     (hlab : ∀ c ∈ subsOf r ++ prodsOf r, (lv.lookup c).isSome) :
-    linRxnsOf (isosOf lv) ((r.name, r.stoich) :: others) r.name lm =
+    linRxnsOf (isosOf lv) baseRxns r.name lm =
       if lm.length < max (nSub lv r) (nProd lv r) then .error .valueError
       else (mapSubstratesToLabelmap (paddedSubs lv r) lm).map
         (fun res => slotRxns r.name 0 res (paddedProds lv r)) := by
@@ -658,7 +658,7 @@ theorem linRxnsOf_eq (lv : List (Name × Nat)) (r : BRxn) (lm : List Nat)
   have hp := slotsOf_isosOf lv (prodsOf r) (fun c hc => hlab c (List.mem_append_right _ hc))
   have hd := dupList_subs r.stoich
   simp only [subsOf, prodsOf] at hs hp
-  simp only [linRxnsOf, List.lookup, beq_self_eq_true]
+  simp only [linRxnsOf, hlk]
   rw [hd.1, hd.2, hs, hp]
   simp only [bind, Except.bind, addInfluxEfflux]
   have hlen : (slotsFlat lv (unpackStoich r.stoich).1 ++ List.replicate
